@@ -234,6 +234,15 @@ class GeoHooks(Hooks):
             if len(args) == 2 and isinstance(args[0], int):
                 return _RangeV(args[0], 1)
             return TOP
+        if isinstance(func, Ext) and func.name == 'itertools.product' and not kwargs:
+            # product(range(...), range(...), ...): one representative per combination of residue classes
+            seqs = []
+            for a in args:
+                r = self.iterate(it, a, node) if isinstance(a, _RangeV) else a
+                if r is NOT_HANDLED or r is TOP or not isinstance(r, (list, tuple)):
+                    return TOP
+                seqs.append(list(r))
+            return [tuple(c) for c in itertools.product(*seqs)]
         n = np_name(func)
         if n in ('mod', 'add', 'subtract') and len(args) == 2:
             a, b = args
